@@ -54,8 +54,12 @@ fn build_cond(common: &CommonCircuitData<F, D>) -> Result<CondOuter, String> {
 struct DummyOuter { data: Data, b: BoolTarget, pt: Pt, vd: VerifierCircuitTarget }
 
 fn build_or_dummy(common: &CommonCircuitData<F, D>) -> Result<DummyOuter, String> {
+    build_or_dummy_with(common, CircuitConfig::standard_recursion_config())
+}
+
+fn build_or_dummy_with(common: &CommonCircuitData<F, D>, outer_cfg: CircuitConfig) -> Result<DummyOuter, String> {
     catch_unwind(AssertUnwindSafe(|| {
-        let mut bd = CircuitBuilder::<F, D>::new(CircuitConfig::standard_recursion_config());
+        let mut bd = CircuitBuilder::<F, D>::new(outer_cfg);
         let b = bd.add_virtual_bool_target_safe();
         let pt = bd.add_virtual_proof_with_pis(common);
         let vd = bd.add_virtual_verifier_data(common.config.fri_config.cap_height);
@@ -219,8 +223,34 @@ fn or_dummy(w: &mut dyn Write, r: &mut Rng, name: &str, a: &Built, o: &Built, th
     let mut n = 0;
     let dj = match build_or_dummy(common) {
         Ok(c) => c,
-        Err(e) => { writeln!(w, "c20 {name} ordummy-build = - # exp=? unsupported: {e}").unwrap(); return 1; }
+        // only a refusal of dummy_circuit itself (it cannot reproduce this inner shape) is "unsupported"
+        Err(e) if e.contains("dummy_circuit.rs") => { writeln!(w, "c20 {name} ordummy-build = - # exp=? unsupported: {e}").unwrap(); return 1; }
+        Err(e) => { writeln!(w, "c20 {name} ordummy-build = 0 # exp=1 {e}").unwrap(); return 1; }
     };
+    // the same with an outer circuit whose own Merkle caps have another height than the inner circuit's (plain
+    // verify_proof supports that; the dummy branch has to use the INNER circuit's cap height for its verifier data)
+    for other_cap in [common.config.fri_config.cap_height.saturating_sub(1), common.config.fri_config.cap_height + 1] {
+        if other_cap == common.config.fri_config.cap_height { continue; }
+        let mut oc = CircuitConfig::standard_recursion_config();
+        oc.fri_config.cap_height = other_cap;
+        match build_or_dummy_with(common, oc) {
+            Err(e) => { writeln!(w, "c20 {name} ordummy-outercap{other_cap}-build = 0 # exp=1 {e}").unwrap(); n += 1; }
+            Ok(dj2) => {
+                for bit in [true, false] {
+                    let mut exp = vec![F::from_bool(bit)];
+                    exp.extend(a.proof.public_inputs.iter());
+                    let out = run_outer_with(&dj2.data, &|pw| {
+                        pw.set_bool_target(dj2.b, bit)?;
+                        pw.set_proof_with_pis_target(&dj2.pt, &a.proof)?;
+                        pw.set_verifier_data_target(&dj2.vd, &a.data.verifier_only)
+                    }, &exp, true);
+                    writeln!(w, "c20 {name} ordummy-outercap{other_cap}-b{}-valid = {} # exp=1 native=ok outer={} outer_rows={}", bit as u8, out.ok as u8, out.what,
+                             dj2.data.common.degree()).unwrap();
+                    n += 1;
+                }
+            }
+        }
+    }
     let mut variants = vec![("valid".to_string(), a.proof.clone(), a.data.verifier_only.clone())];
     variants.extend(invalid_variants(r, a, &o.data.verifier_only, thorough));
     for (vn, p, vd) in &variants {
@@ -546,6 +576,18 @@ pub fn run(seed: u64, tier: &str, w: &mut dyn Write) -> usize {
         n += select_only(w, iname, a, &o);
         n += or_dummy(w, &mut r, iname, a, &o, thorough);
         w.flush().unwrap();
+    }
+    // quick tier: none of the subjects above has a shape that dummy_circuit can reproduce, so the or-dummy variant
+    // would go unexercised: run it for one subject that has
+    if !thorough {
+        if let Some((iname, prog, icfg, a)) = builts.iter().find(|x| x.0 == "fixed_12") {
+            if let Ok(o) = build_and_prove(&c06::sibling_program(prog), icfg) {
+                if o.data.common == a.data.common && o.data.verifier_only != a.data.verifier_only {
+                    n += or_dummy(w, &mut r, iname, a, &o, false);
+                    w.flush().unwrap();
+                }
+            }
+        }
     }
     if timing { eprintln!("c20 conditional done {:?}", t0.elapsed()); }
     // cyclic recursion
